@@ -7,7 +7,7 @@ LEVEL = "proof"
 NEEDS_RELEASE = True
 RULE = ("parent bit-vector signals (2/4/9-state mixes) are recorded through the Encoder hook and sliced with signals::slice_signal "
         "(hook), exhaustively for every parent width 2..20 x every sub-range [hi:lo] strictly inside it x three kind profiles, and "
-        "randomly up to width 300; debug and release builds; sequences of GhwSignalTracker::register_bit_vec requests (hook) with several parent vectors, interleaved and repeated sub-ranges and scalars against an oracle for which variables share a signal and where each sub-range lies (first element = most significant bit); plus the GHW corpus file with 29 sub-range variables loaded through "
+        "randomly up to width 300; debug and release builds; sequences of GhwSignalTracker::register_bit_vec requests (hook) with several parent vectors, interleaved and repeated sub-ranges and scalars against an oracle for which variables share a signal and where each sub-range lies (first element = most significant bit); plus the GHW corpus file with 31 sub-range variables loaded through "
         "the public API. Oracle: at every change of the parent the slice equals the substring, reported in the smallest sufficient "
         "kind, and changes only when the sub-range changes. Non-trivial: the sub-range is a proper sub-range and the parent has "
         ">= 2 changes; distinct (width, hi, lo, values).")
@@ -150,8 +150,9 @@ def run(res, rng, tier, model_ok, replay=None):
         out = core.run_cases(wv, ["ghwslices " + f], "c13g")[0]
         res.evaluations += 1
         res.distribution["ghw-corpus-" + tag] = 1
-        if not out.startswith("ok"):
-            res.violations.append(("ghwslices " + f, out, "ok ...", "sub-range variables of the GHW corpus file (%s build)" % tag))
+        # the corpus file holds 31 variables that are sub-ranges of larger vectors: all of them have to be recognised as such (in both builds)
+        if not out.startswith("ok 31 "):
+            res.violations.append(("ghwslices " + f, out, "ok 31 sub-range variables", "sub-range variables of the GHW corpus file (%s build)" % tag))
         else:
             res.nontrivial.add(("ghw", tag))
             res.notes.append("%s build: %s" % (tag, out[:200]))
